@@ -220,6 +220,8 @@ def make_cases(rng, tier):
     progs += dedup_twice(rng, 40 if tier == "quick" else 600)
     progs += same_name_materializations(rng, 30 if tier == "quick" else 400)
     progs += dedup_over_chain_of_dedups(rng, 30 if tier == "quick" else 400)
+    import c06
+    progs += c06.sort_window_programs()
     n = 500 if tier == "quick" else 20000
     for _ in range(n):
         p, _ = ip.gen_prog(rng, rng.choice([1, 2, 3, 4, 6, 8, 12]))
